@@ -629,6 +629,17 @@ func main() {
 	if r.Thorough() {
 		bound, perRoot = 2, 50000
 	}
+	// boundOf: the three programs added in round d (declared-function callback, deferred declared function, deferred
+	// closure) are explored with at most one deviation in both tiers: their two-deviation trees did not fit into the
+	// session that added them (the thorough run was cut off after 50 minutes on a loaded machine) and an unverified bound is
+	// not registered. Reported as deviation_bound_round_d_programs in the evidence.
+	boundOf := func(sc scenario) int {
+		switch family[sc.Prog].Name {
+		case "host-callback-declared-func", "deferred-declared-func", "deferred-closure":
+			return 1
+		}
+		return bound
+	}
 	jobsFile := filepath.Join(report.Root, ".work", "c09_jobs.json")
 	var jobs []job
 	rootStats := map[int]*stats{}
@@ -639,10 +650,10 @@ func main() {
 			note(st, x)
 			rootStats[si] = st
 			// two levels of the schedule tree are expanded by the parent so that the subtrees are small and many
-			for _, p := range alternatives(x, 0, bound) {
+			for _, p := range alternatives(x, 0, boundOf(sc)) {
 				y := run(sc, p)
 				note(st, y)
-				for _, q := range alternatives(y, len(p), bound) {
+				for _, q := range alternatives(y, len(p), boundOf(sc)) {
 					jobs = append(jobs, job{si, q})
 				}
 			}
@@ -661,7 +672,7 @@ func main() {
 		j := jobs[i]
 		st := stats{}
 		budget := perRoot
-		explore(scs[j.Sc], j.Prefix, bound, &st, &budget)
+		explore(scs[j.Sc], j.Prefix, boundOf(scs[j.Sc]), &st, &budget)
 		return &jobOut{Sc: j.Sc, St: st, Capped: budget <= 0}
 	}, par.Opts{CaseTimeout: 900 * 1e9, GoMaxProcs: 1, MemMB: 8192})
 	os.Remove(jobsFile)
@@ -726,6 +737,7 @@ func main() {
 	r.Set("executions_cancelled_while_running", cancelledRuns)
 	r.Set("max_depth", maxDepth)
 	r.Set("deviation_bound_completed", bound)
+	r.Set("deviation_bound_round_d_programs", 1)
 	r.Set("subtrees", len(jobs))
 	r.Set("subtrees_capped", capped)
 	r.Set("exhaustive", capped == 0 && len(res.Abnormal) == 0)
